@@ -96,9 +96,9 @@ type pk struct {
 	lits []string
 }
 
-func av(k kind) pk          { return pk{k: k, m: mAny} }
-func leaf(k kind) pk         { return pk{k: k, m: mLeaf} }
-func cst(l ...string) pk     { return pk{k: kT, m: mConst, lits: l} }
+func av(k kind) pk       { return pk{k: k, m: mAny} }
+func leaf(k kind) pk     { return pk{k: k, m: mLeaf} }
+func cst(l ...string) pk { return pk{k: kT, m: mConst, lits: l} }
 
 type hspec struct {
 	n        string
